@@ -339,7 +339,9 @@ func c12(c *ev.Ctx) {
 				}
 			}
 		}
-		c.SampleEvery(i, func() interface{} { return map[string]string{"minimal": texts["minimal"], "full": texts["full"], "tree": want} })
+		c.SampleEvery(i, func() interface{} {
+			return map[string]string{"minimal": texts["minimal"], "full": texts["full"], "tree": want}
+		})
 	})
 	_ = model.Null
 }
